@@ -234,6 +234,42 @@ MUTANTS = [
      [("src/pipecheck.rs", "\t\tif is_broken_pipe(err) {\n\t\t\tterminate_by_sigpipe();\n\t\t}\n", "\t\tlet _ = is_broken_pipe(err);\n")]),
     ("r39-bail-exit-0", "violations", "R39", "C13", "R13.1", "shared bail macro exits 0",
      [("src/bail.rs", "\t\t::std::process::exit(1);", "\t\t::std::process::exit(0);")]),
+    # ---- round 6: module moves, type-level changes, error plumbing R41..R49
+    ("r41-eof-on-short", "violations", "R41", "C09", "R09.6", "moved capture reader takes a short read for EOF",
+     [("src/input/capture.rs", "self.source_eof = source_size == 0;", "self.source_eof = source_size < tail_len(buf, prefix_size);"),
+      ("src/input/capture.rs", "impl<R> Read for CaptureReader<R>", "fn tail_len(buf: &[u8], taken: usize) -> usize {\n\tbuf.len().saturating_sub(taken)\n}\n\nimpl<R> Read for CaptureReader<R>")]),
+    ("r41-fused-drops-early", "violations", "R41", "C09", "R09.11", "moved fused reader lets go of the prefix after any short read",
+     [("src/input/fused.rs", "\t\tif n == 0 && !buf.is_empty() {", "\t\tif n < buf.len() {")]),
+    ("r41-borrow-without-rewind", "violations", "R41", "C09", "R09.1", "moved guard forgets to rewind on borrow",
+     [("src/input/capture.rs", "\t\tself.0.rewind();\n\t\t&mut self.0", "\t\t&mut self.0")]),
+    ("r41-new-unwrap", "violations", "R41", "C04", "R04.1", "a new panic edge in the moved file is not covered by the old file's budget",
+     [("src/input/capture.rs", "\t\t\tself.source.read_to_end(self.prefix.get_mut())?;\n\t\t\tself.source_eof = true;", "\t\t\tself.source.read_to_end(self.prefix.get_mut()).unwrap();\n\t\t\tself.source_eof = true;")]),
+    ("r43-budget-not-decreased", "violations", "R43", "C18", "R18.3", "moved size calculator recurses with the same budget",
+     [("src/msgpack/size.rs", "\t\tlet size = next_value_size(seq, depth_limit - 1)?;", "\t\tlet size = next_value_size(seq, depth_limit)?;")]),
+    ("r44-lowercase-dropped", "violations", "R44", "C14", "R14.2", "moved extension lookup compares case-sensitively",
+     [("src/cli_input.rs", "\t\t\t.map(|ext| ext.to_ascii_lowercase())\n", "\t\t\t.map(|ext| ext.to_string())\n")]),
+    ("r44-dash-is-a-file", "violations", "R44", "C14", "R14.3", "moved path conversion no longer maps `-` to stdin",
+     [("src/cli_input.rs", "\t\tif path == Path::new(\"-\") {", "\t\tif path == Path::new(\"--\") {")]),
+    ("r44-second-unsafe", "violations", "R44", "C17", "R17.1", "a second mmap in the moved file exceeds what moved with the function",
+     [("src/cli_input.rs", "\t\t\t// Per memmap2 docs, it's safe to drop the original file now.\n\t\t\treturn Ok(Input::Mmap(map));", "\t\t\tdrop(map);\n\t\t\tlet map = unsafe { memmap2::Mmap::map(&file)? };\n\t\t\treturn Ok(Input::Mmap(map));")]),
+    ("r45-toml-first", "violations", "R45", "C05", "R05.4", "fn-pointer table starts with the buffering TOML trial",
+     [("src/detect.rs", "\t(Format::Msgpack, crate::msgpack::input_matches),", "\t(Format::Toml, crate::toml::input_matches),"), ("src/detect.rs", "\t(Format::Toml, crate::toml::input_matches),\n];", "\t(Format::Msgpack, crate::msgpack::input_matches),\n];")]),
+    ("r46-map-err-replaces", "violations", "R46", "C11", "R11.3", "explicit map_err builds a fresh message instead of converting",
+     [("src/msgpack.rs", "\t\ttranscode::transcode(&mut ser, de).map_err(crate::Error::from)", "\t\ttranscode::transcode(&mut ser, de).map_err(|_| crate::Error::from(\"translation failed\"))")]),
+    ("r46-flag-not-set", "violations", "R46", "C08", "R08.1", "one-shot flag never set",
+     [("src/toml.rs", "\t\tself.used = true;\n", "")]),
+    ("r47-entries-reversed", "violations", "R47", "C01", "R01.3", "helper hands the map entries over in reverse order",
+     [("src/transcode/value.rs", "\t\t\tNone => return Ok(entries),", "\t\t\tNone => {\n\t\t\t\tentries.reverse();\n\t\t\t\treturn Ok(entries);\n\t\t\t}")]),
+    ("r47-f32-widened", "violations", "R47", "C01", "R01.3", "f32 leaves as f64",
+     [("src/transcode/value.rs", "Value::F32(f) => s.serialize_f32(f),", "Value::F32(f) => s.serialize_f64(f64::from(f)),")]),
+    ("r48-marks-swapped", "violations", "R48", "C03", "R03.5", "DOCUMENT_END cuts at the event's start index",
+     [("src/yaml/chunker.rs", "\t\t\t\t\tlet offset = Event::end_index(&event);", "\t\t\t\t\tlet offset = Event::start_index(&event);")]),
+    ("r48-stash-ignored", "violations", "R48", "C12", "R12.2", "the reader's own error is discarded in favour of libyaml's",
+     [("src/yaml/chunker/parser.rs", "Some(read_err) => read_err,", "Some(_) => io::Error::new(io::ErrorKind::InvalidData, \"read failed\"),")]),
+    ("r49-scratch-tail", "violations", "R49", "C07", "R07.7", "remainder taken from the whole scratch array",
+     [("src/yaml/encoding.rs", "let (emitted, kept) = tmp[..char_len].split_at(emit_len);", "let (emitted, kept) = tmp.split_at(emit_len);")]),
+    ("r49-error-skipped", "violations", "R49", "C12", "R12.1", "a failing chunk is skipped instead of ending the translation",
+     [("src/yaml.rs", "\t\t\tSome(doc) => doc?,\n", "\t\t\tSome(Ok(doc)) => doc,\n\t\t\tSome(Err(_)) => continue,\n")]),
 ]
 
 
@@ -300,7 +336,19 @@ def main():
                     p2 = os.path.join(root, f)
                     rel = os.path.relpath(p2, md)
                     p1 = os.path.join(clean, rel)
-                    if rel.startswith("target") or not os.path.exists(p1):
+                    if rel.startswith("target") or rel.startswith(".git"):
+                        continue
+                    if not os.path.exists(p1):
+                        # a file the refactoring created
+                        try:
+                            b = open(p2).read()
+                        except UnicodeDecodeError:
+                            continue
+                        bl = b.splitlines(True)
+                        out_lines.append(f"diff --git a/{rel} b/{rel}\nnew file mode 100644\n--- /dev/null\n+++ b/{rel}\n@@ -0,0 +1,{len(bl)} @@\n")
+                        out_lines.extend("+" + l for l in bl)
+                        if bl and not bl[-1].endswith("\n"):
+                            out_lines.append("\n\\ No newline at end of file\n")
                         continue
                     try:
                         a = open(p1).read()
@@ -310,6 +358,19 @@ def main():
                     if a != b:
                         out_lines.append(f"diff --git a/{rel} b/{rel}\n")
                         out_lines.extend(difflib.unified_diff(a.splitlines(True), b.splitlines(True), f"a/{rel}", f"b/{rel}"))
+            # files the refactoring removed
+            for root, _, fs in os.walk(clean):
+                for f in sorted(fs):
+                    p1 = os.path.join(root, f)
+                    rel = os.path.relpath(p1, clean)
+                    if rel.startswith("target") or rel.startswith(".git") or os.path.exists(os.path.join(md, rel)):
+                        continue
+                    try:
+                        al = open(p1).read().splitlines(True)
+                    except UnicodeDecodeError:
+                        continue
+                    out_lines.append(f"diff --git a/{rel} b/{rel}\ndeleted file mode 100644\n--- a/{rel}\n+++ /dev/null\n@@ -1,{len(al)} +0,0 @@\n")
+                    out_lines.extend("-" + l for l in al)
             path = os.path.join(HERE, bank, f"ref-{name}.patch")
             with open(path, "w") as fh:
                 fh.write("\n".join(lines) + "\n" + "".join(out_lines))
